@@ -1,10 +1,27 @@
 #!/usr/bin/env python3
 """MANIFEST.setup_cmd: nothing to build (the framework is Python + the pre-installed verifiers);
-verify that the tools the checks need are present and run offline."""
-import shutil, subprocess, sys
+verify that the tools the checks need are present and run offline, and self-test the output parsers."""
+import os, shutil, subprocess, sys
 ok = True
 for tool in ("verus", "cargo", "cargo-kani", "cbmc", "python3"):
     p = shutil.which(tool)
     print("%-12s %s" % (tool, p or "MISSING"))
     ok &= bool(p)
+# Miri (unit n5) lives on the nightly toolchain
+try:
+    r = subprocess.run(["cargo", "+nightly", "miri", "--version"], capture_output=True, text=True, timeout=60)
+    print("%-12s %s" % ("miri", r.stdout.strip() or "MISSING"))
+    ok &= r.returncode == 0
+except Exception as e:  # noqa: BLE001
+    print("miri         MISSING (%s)" % e)
+    ok = False
+sys.path.insert(0, os.path.dirname(os.path.abspath(__file__)))
+import kani_run  # noqa: E402
+sample = ('Check 7: f.assertion.1\n\t - Status: FAILURE\n\t - Description: "assertion failed: a ==\nb.wrapping_add(1)"\n\t - Location: src/x.rs:1:1 in function f\n'
+          'Check 8: f.assertion.2\n\t - Status: SUCCESS\n\t - Description: "assertion failed: ok"\n\t - Location: src/x.rs:2:1 in function f\n\nVERIFICATION:- FAILED\n')
+p = kani_run.parse_harness_output(sample)
+st, why = kani_run.classify(p, "src/x.rs")
+good = p["n_checks"] == 2 and st == "failed" and "a == b.wrapping_add(1)" in why
+print("%-12s %s" % ("kani parser", "ok" if good else "BROKEN: %s %s" % (st, why)))
+ok &= good
 sys.exit(0 if ok else 1)
